@@ -958,6 +958,11 @@ namespace sim
 			void cancel(boost::system::error_code& ec);
 			void cancel();
 
+			// (re-)opening an acceptor closes it first, it is not listening
+			// until listen() is called again
+			void open(tcp protocol, boost::system::error_code& ec);
+			void open(tcp protocol);
+
 			void listen(int qs = -1);
 			void listen(int qs, boost::system::error_code& ec);
 
